@@ -887,7 +887,7 @@ fn ws_run(rng: &mut Rng, at_least_one: bool) -> String {
 fn render(ts: &[Tok], layout: u8, rng: &mut Rng) -> String {
     let mut out = String::from("{{");
     let mut prev = String::from("{{");
-    let mut put = |out: &mut String, prev: &str, cur: &str, rng: &mut Rng| {
+    let put = |out: &mut String, prev: &str, cur: &str, rng: &mut Rng| {
         let need = needs_space(prev, cur);
         match layout {
             0 => out.push(' '),
@@ -1065,4 +1065,1133 @@ fn gal_ostr(o: &Option<String>) -> String {
     }
 }
 
-// @@NEXT@@
+// ------------------------------------------------------------------ decorations
+
+fn map_kw(kw: &Kw, f: &mut dyn FnMut(&Sx) -> Sx) -> Kw {
+    kw.iter().map(|(k, v)| (k.clone(), f(v))).collect()
+}
+fn map_opt(o: &Option<Box<Sx>>, f: &mut dyn FnMut(&Sx) -> Sx) -> Option<Box<Sx>> {
+    o.as_ref().map(|x| bx(f(x)))
+}
+
+/// every operand / sub-expression in explicit parentheses; `chainpos`: the node is the base of
+/// a `.`/`?.`/`?[` access (the real parser only continues an identifier chain there), so it
+/// is not wrapped itself
+fn full(s: &Sx) -> Sx {
+    fn p(s: &Sx) -> Sx {
+        Sx::Paren(bx(full(s)))
+    }
+    /// base of an access: unwrapped when it must stay a chain
+    fn base(e: &Sx, must_chain: bool) -> Sx {
+        if must_chain { full(e) } else { p(e) }
+    }
+    match s {
+        Sx::Const(_) | Sx::Var(_) => s.clone(),
+        Sx::Attr(e, a, o) => Sx::Attr(bx(chain_full(e)), a.clone(), *o),
+        Sx::Item(e, i, o) => Sx::Item(bx(if *o { chain_full(e) } else { base(e, false) }), bx(p(i)), *o),
+        Sx::Slice(e, a, b, c, o) => Sx::Slice(
+            bx(if *o { chain_full(e) } else { base(e, false) }),
+            map_opt(a, &mut p),
+            map_opt(b, &mut p),
+            map_opt(c, &mut p),
+            *o,
+        ),
+        Sx::Un(u, e) => Sx::Un(*u, bx(p(e))),
+        Sx::Bin(o, a, b) => Sx::Bin(*o, bx(p(a)), bx(p(b))),
+        Sx::NotIn(a, b) => Sx::NotIn(bx(p(a)), bx(p(b))),
+        Sx::Test(e, n, kw, neg) => Sx::Test(bx(p(e)), n.clone(), map_kw(kw, &mut p), *neg),
+        Sx::Filter(e, n, kw) => Sx::Filter(bx(p(e)), n.clone(), map_kw(kw, &mut p)),
+        Sx::Call(n, kw) => Sx::Call(n.clone(), map_kw(kw, &mut p)),
+        Sx::Tern(c, t, f) => Sx::Tern(bx(p(c)), bx(p(t)), bx(p(f))),
+        Sx::Paren(e) => Sx::Paren(bx(full(e))),
+        Sx::Arr(items) => Sx::Arr(items.iter().map(|(sp, x)| (*sp, p(x))).collect()),
+        Sx::Map(es) => Sx::Map(es.iter().map(|(k, x)| (k.clone(), p(x))).collect()),
+        Sx::Comp(e, k, x, t, c) => Sx::Comp(bx(p(e)), k.clone(), x.clone(), bx(p(t)), map_opt(c, &mut p)),
+    }
+}
+
+/// `full` of a node in chain position: bases stay bare all the way down
+fn chain_full(s: &Sx) -> Sx {
+    fn p(s: &Sx) -> Sx {
+        Sx::Paren(bx(full(s)))
+    }
+    match s {
+        Sx::Attr(e, a, o) => Sx::Attr(bx(chain_full(e)), a.clone(), *o),
+        Sx::Item(e, i, o) => Sx::Item(bx(chain_full(e)), bx(p(i)), *o),
+        Sx::Slice(e, a, b, c, o) => {
+            Sx::Slice(bx(chain_full(e)), map_opt(a, &mut p), map_opt(b, &mut p), map_opt(c, &mut p), *o)
+        }
+        _ => full(s),
+    }
+}
+
+/// parentheses at random positions (probability 1/4, sometimes doubled), never in chain position
+fn redundant(s: &Sx, rng: &mut Rng, chainpos: bool) -> Sx {
+    let inner = match s {
+        Sx::Const(_) | Sx::Var(_) => s.clone(),
+        Sx::Attr(e, a, o) => Sx::Attr(bx(redundant(e, rng, true)), a.clone(), *o),
+        Sx::Item(e, i, o) => {
+            let b = redundant(e, rng, chainpos || *o);
+            Sx::Item(bx(b), bx(redundant(i, rng, false)), *o)
+        }
+        Sx::Slice(e, a, b, c, o) => {
+            let base = redundant(e, rng, chainpos || *o);
+            let a = a.as_ref().map(|x| bx(redundant(x, rng, false)));
+            let b = b.as_ref().map(|x| bx(redundant(x, rng, false)));
+            let c = c.as_ref().map(|x| bx(redundant(x, rng, false)));
+            Sx::Slice(bx(base), a, b, c, *o)
+        }
+        Sx::Un(u, e) => Sx::Un(*u, bx(redundant(e, rng, false))),
+        Sx::Bin(o, a, b) => {
+            let a = redundant(a, rng, false);
+            Sx::Bin(*o, bx(a), bx(redundant(b, rng, false)))
+        }
+        Sx::NotIn(a, b) => {
+            let a = redundant(a, rng, false);
+            Sx::NotIn(bx(a), bx(redundant(b, rng, false)))
+        }
+        Sx::Test(e, n, kw, neg) => {
+            let e = redundant(e, rng, false);
+            Sx::Test(bx(e), n.clone(), map_kw(kw, &mut |v| redundant(v, rng, false)), *neg)
+        }
+        Sx::Filter(e, n, kw) => {
+            let e = redundant(e, rng, false);
+            Sx::Filter(bx(e), n.clone(), map_kw(kw, &mut |v| redundant(v, rng, false)))
+        }
+        Sx::Call(n, kw) => Sx::Call(n.clone(), map_kw(kw, &mut |v| redundant(v, rng, false))),
+        Sx::Tern(c, t, f) => {
+            let c = redundant(c, rng, false);
+            let t = redundant(t, rng, false);
+            Sx::Tern(bx(c), bx(t), bx(redundant(f, rng, false)))
+        }
+        Sx::Paren(e) => Sx::Paren(bx(redundant(e, rng, false))),
+        Sx::Arr(items) => Sx::Arr(items.iter().map(|(sp, x)| (*sp, redundant(x, rng, false))).collect()),
+        Sx::Map(es) => Sx::Map(es.iter().map(|(k, x)| (k.clone(), redundant(x, rng, false))).collect()),
+        Sx::Comp(e, k, x, t, c) => {
+            let e = redundant(e, rng, false);
+            let t = redundant(t, rng, false);
+            let c = c.as_ref().map(|c| bx(redundant(c, rng, false)));
+            Sx::Comp(bx(e), k.clone(), x.clone(), bx(t), c)
+        }
+    };
+    if !chainpos && rng.chance(1, 4) {
+        if rng.chance(1, 5) { Sx::Paren(bx(Sx::Paren(bx(inner)))) } else { Sx::Paren(bx(inner)) }
+    } else {
+        inner
+    }
+}
+
+// ------------------------------------------------------------------ case emission
+
+struct Run {
+    ptree: Sink,
+    praw: Sink,
+    meta: Meta,
+    /// printed texts (min decoration) kept as mutation seeds for praw
+    seeds: Vec<Vec<Tok>>,
+    seed_cap: usize,
+}
+
+/// What the implementation said for one emitted tree.
+struct Emitted {
+    text: String,
+    /// Some(display) = accepted
+    disp: Option<String>,
+    /// 2*height+1 of the printed tree: an upper bound of the recursion the parser needs
+    depth_bound: usize,
+}
+
+impl Run {
+    fn emit_tree(&mut self, s: &Sx, deco: &str, layout: u8, shape: &str, rng: &mut Rng) -> Option<Emitted> {
+        let toks = raw(s);
+        let text = render(&toks, layout, rng);
+        let base = json!({"text": text, "decoration": deco, "layout": layout, "shape": shape});
+        self.meta.oracle_checks += 1;
+        let lexed = match lex_text(&text) {
+            Lexed::Toks(t) => t,
+            Lexed::Reject(m) => {
+                self.meta.oracle_fail("lexer rejected printed expression", None, json!({"case": base, "msg": m}));
+                return None;
+            }
+            Lexed::Odd(m) => {
+                self.meta.oracle_fail("lexer: printed expression is not one variable block", None, json!({"case": base, "msg": m}));
+                return None;
+            }
+            Lexed::Panic(m) => {
+                self.meta.oracle_fail(&format!("panic in lexer: {m}"), None, base);
+                return None;
+            }
+        };
+        self.meta.oracle_checks += 1;
+        let disp = match parse_text(&text) {
+            Parsed::Accept(d) => Some(d),
+            Parsed::Reject(_) => None,
+            Parsed::Odd(m) => {
+                self.meta.oracle_fail(&format!("parser hook: {m}"), None, base);
+                return None;
+            }
+            Parsed::Panic(m) => {
+                self.meta.oracle_fail(&format!("panic in parser: {m}"), None, base);
+                return None;
+            }
+        };
+        if deco == "min" && self.seeds.len() < self.seed_cap && lexed.len() >= 3 {
+            self.seeds.push(lexed[..lexed.len() - 1].to_vec());
+        }
+        let g = format!(
+            "{{| pt_sx := {}; pt_toks := {}; pt_impl := {} |}}",
+            gal_sx(s),
+            gal_toks(&lexed),
+            gal_ostr(&disp)
+        );
+        let mut desc = base;
+        desc["impl"] = json!(disp);
+        let mut cls = std::collections::BTreeSet::new();
+        s.classes(&mut cls);
+        let deco_tag = format!("deco:{deco}");
+        let layout_tag = format!("layout:{layout}");
+        let gen_tag = format!("gen:{}", shape.split(':').next().unwrap_or("?"));
+        let mut tags: Vec<&str> = vec![
+            deco_tag.as_str(),
+            layout_tag.as_str(),
+            gen_tag.as_str(),
+            if disp.is_some() { "impl:ok" } else { "impl:err" },
+        ];
+        tags.extend(cls.iter().copied());
+        self.ptree.push(g, desc, s.n_ops() >= 2, None, &tags);
+        Some(Emitted { text, disp, depth_bound: 2 * s.height() + 1 })
+    }
+
+    /// one tree in several decorations + the oracle "parentheses and whitespace never change the parse"
+    fn emit_decorated(&mut self, s: &Sx, shape: &str, with_redundant: bool, fixed_layout: Option<u8>, rng: &mut Rng) {
+        let lay = |rng: &mut Rng| fixed_layout.unwrap_or(rng.below(3) as u8);
+        let l0 = lay(rng);
+        let min = self.emit_tree(s, "min", l0, shape, rng);
+        let mut others = Vec::new();
+        let f = full(s);
+        let l1 = lay(rng);
+        others.push(self.emit_tree(&f, "full", l1, shape, rng));
+        if with_redundant {
+            let r = redundant(s, rng, false);
+            let l2 = lay(rng);
+            others.push(self.emit_tree(&r, "redundant", l2, shape, rng));
+        }
+        let Some(min) = min else { return };
+        let Some(d0) = &min.disp else { return };
+        if s.has_concat_unary() {
+            return;
+        }
+        for o in others.into_iter().flatten() {
+            self.meta.oracle_checks += 1;
+            let bad = match &o.disp {
+                Some(d) => d != d0,
+                // more parentheses may exceed the recursion limit: only a failure when they cannot
+                None => o.depth_bound < 38,
+            };
+            if bad {
+                self.meta.oracle_fail(
+                    "decoration changes the parse",
+                    None,
+                    json!({"texts": [min.text, o.text], "displays": [min.disp, o.disp], "shape": shape}),
+                );
+            }
+        }
+    }
+
+    fn emit_raw_text(&mut self, text: &str, origin: &str) {
+        self.meta.oracle_checks += 1;
+        let lexed = match lex_text(text) {
+            Lexed::Toks(t) => t,
+            Lexed::Reject(_) | Lexed::Odd(_) => return,
+            Lexed::Panic(m) => {
+                self.meta.oracle_fail(&format!("panic in lexer: {m}"), None, json!({"text": text, "origin": origin}));
+                return;
+            }
+        };
+        self.meta.oracle_checks += 1;
+        let disp = match parse_text(text) {
+            Parsed::Accept(d) => Some(d),
+            Parsed::Reject(_) => None,
+            Parsed::Odd(m) => {
+                // several / no expression nodes cannot come from one `{{ }}` block
+                self.meta.oracle_fail(&format!("parser hook: {m}"), None, json!({"text": text, "origin": origin}));
+                return;
+            }
+            Parsed::Panic(m) => {
+                self.meta.oracle_fail(&format!("panic in parser: {m}"), None, json!({"text": text, "origin": origin}));
+                return;
+            }
+        };
+        let g = format!("{{| pw_toks := {}; pw_impl := {} |}}", gal_toks(&lexed), gal_ostr(&disp));
+        let desc = json!({"text": text, "origin": origin, "impl": disp});
+        let gen_tag = format!("gen:{}", origin.split(':').next().unwrap_or("?"));
+        let tags = [gen_tag.as_str(), if disp.is_some() { "impl:ok" } else { "impl:err" }];
+        self.praw.push(g, desc, lexed.len() >= 5, None, &tags);
+    }
+}
+
+// ------------------------------------------------------------------ (E) exhaustive shapes
+
+/// the 17 infix operators + `not in`
+#[derive(Clone, Copy)]
+enum Op18 {
+    B(Bop),
+    NotIn,
+}
+impl Op18 {
+    fn all() -> Vec<Op18> {
+        let mut v: Vec<Op18> = BOPS.iter().map(|o| Op18::B(*o)).collect();
+        v.push(Op18::NotIn);
+        v
+    }
+    fn mk(self, a: Sx, b: Sx) -> Sx {
+        match self {
+            Op18::B(o) => bin(o, a, b),
+            Op18::NotIn => Sx::NotIn(bx(a), bx(b)),
+        }
+    }
+    fn name(self) -> String {
+        match self {
+            Op18::B(o) => format!("{o:?}"),
+            Op18::NotIn => "NotIn".into(),
+        }
+    }
+}
+
+fn exhaustive_shapes() -> Vec<(String, Sx)> {
+    let (a, b, c, d) = (var("a"), var("b"), var("c"), var("d"));
+    let ops = Op18::all();
+    let uns = [Unop::Not, Unop::Minus];
+    let mut out: Vec<(String, Sx)> = Vec::new();
+    let mut add = |tag: String, s: Sx| out.push((format!("E:{tag}"), s));
+
+    // (1) two infix operators, both groupings
+    for o1 in &ops {
+        for o2 in &ops {
+            add(format!("1L:{}:{}", o1.name(), o2.name()), o2.mk(o1.mk(a.clone(), b.clone()), c.clone()));
+            add(format!("1R:{}:{}", o1.name(), o2.name()), o1.mk(a.clone(), o2.mk(b.clone(), c.clone())));
+        }
+    }
+    for o in &ops {
+        for u in uns {
+            // (2) unary on the left: (u a) op b  /  u (a op b)
+            add(format!("2in:{u:?}:{}", o.name()), o.mk(un(u, a.clone()), b.clone()));
+            add(format!("2out:{u:?}:{}", o.name()), un(u, o.mk(a.clone(), b.clone())));
+            // (3) unary right operand
+            add(format!("3:{}:{u:?}", o.name()), o.mk(a.clone(), un(u, b.clone())));
+        }
+        // (4) filter
+        add(format!("4out:{}", o.name()), filt(o.mk(a.clone(), b.clone()), "f"));
+        add(format!("4in:{}", o.name()), o.mk(a.clone(), filt(b.clone(), "f")));
+        add(format!("4inl:{}", o.name()), o.mk(filt(a.clone(), "f"), b.clone()));
+        // (5) test, plain and negated
+        for neg in [false, true] {
+            add(format!("5out:{}:{neg}", o.name()), test(o.mk(a.clone(), b.clone()), "t", neg));
+            add(format!("5in:{}:{neg}", o.name()), o.mk(a.clone(), test(b.clone(), "t", neg)));
+            add(format!("5inl:{}:{neg}", o.name()), o.mk(test(a.clone(), "t", neg), b.clone()));
+        }
+        // (6) ternary against an infix operator
+        add(format!("6a:{}", o.name()), tern(b.clone(), a.clone(), o.mk(c.clone(), d.clone())));
+        add(format!("6b:{}", o.name()), o.mk(tern(b.clone(), a.clone(), c.clone()), d.clone()));
+        add(format!("6c:{}", o.name()), tern(c.clone(), o.mk(a.clone(), b.clone()), d.clone()));
+        add(format!("6d:{}", o.name()), o.mk(a.clone(), tern(c.clone(), b.clone(), d.clone())));
+        add(format!("6e:{}", o.name()), tern(o.mk(a.clone(), b.clone()), c.clone(), d.clone()));
+    }
+    // (6) ternary in the other positions
+    let t = tern(b.clone(), a.clone(), c.clone());
+    let e = var("e");
+    add("6:tern-in-cond".into(), tern(t.clone(), d.clone(), e.clone()));
+    add("6:tern-in-true".into(), tern(d.clone(), t.clone(), e.clone()));
+    add("6:tern-in-false".into(), tern(d.clone(), e.clone(), t.clone()));
+    for u in uns {
+        add(format!("6:tern-under-{u:?}"), un(u, t.clone()));
+        add(format!("6:{u:?}-in-tern-true"), tern(b.clone(), un(u, a.clone()), c.clone()));
+        add(format!("6:{u:?}-in-tern-cond"), tern(un(u, b.clone()), a.clone(), c.clone()));
+        add(format!("6:{u:?}-in-tern-false"), tern(b.clone(), a.clone(), un(u, c.clone())));
+    }
+    add("6:tern-under-filter".into(), filt(t.clone(), "f"));
+    add("6:filter-in-tern".into(), tern(filt(b.clone(), "f"), filt(a.clone(), "f"), filt(c.clone(), "f")));
+    for neg in [false, true] {
+        add(format!("6:tern-under-test:{neg}"), test(t.clone(), "t", neg));
+        add(format!("6:test-in-tern:{neg}"), tern(test(b.clone(), "t", neg), test(a.clone(), "t", neg), test(c.clone(), "t", neg)));
+    }
+    add("6:tern-as-index".into(), item(d.clone(), t.clone()));
+    add("6:tern-as-opt-index".into(), Sx::Item(bx(d.clone()), bx(t.clone()), true));
+    add("6:tern-as-base".into(), item(t.clone(), d.clone()));
+    add("6:tern-as-kwarg".into(), Sx::Call("f".into(), vec![("k".into(), t.clone())]));
+    add("6:tern-as-filter-kwarg".into(), Sx::Filter(bx(d.clone()), "f".into(), vec![("k".into(), t.clone())]));
+    add("6:tern-as-test-kwarg".into(), Sx::Test(bx(d.clone()), "t".into(), vec![("k".into(), t.clone())], false));
+    add("6:tern-as-slice-start".into(), Sx::Slice(bx(d.clone()), Some(bx(t.clone())), None, None, false));
+    add("6:tern-as-slice-stop".into(), Sx::Slice(bx(d.clone()), None, Some(bx(t.clone())), None, false));
+    add("6:tern-as-slice-step".into(), Sx::Slice(bx(d.clone()), None, None, Some(bx(t.clone())), false));
+    add("6:tern-in-array".into(), Sx::Arr(vec![(false, t.clone()), (true, t.clone())]));
+    add("6:tern-in-map".into(), Sx::Map(vec![(Some(MKey::Str("k".into())), t.clone()), (None, t.clone())]));
+    add("6:tern-in-comp-expr".into(), Sx::Comp(bx(t.clone()), None, "x".into(), bx(d.clone()), None));
+    add("6:tern-in-comp-target".into(), Sx::Comp(bx(d.clone()), None, "x".into(), bx(t.clone()), None));
+    add("6:tern-in-comp-cond".into(), Sx::Comp(bx(d.clone()), Some("k".into()), "x".into(), bx(e.clone()), Some(bx(t.clone()))));
+
+    // (7) unary / filter / test against each other
+    for u1 in uns {
+        for u2 in uns {
+            add(format!("7:{u1:?}-{u2:?}"), un(u1, un(u2, a.clone())));
+        }
+        add(format!("7:{u1:?}-under-filter"), filt(un(u1, a.clone()), "f"));
+        add(format!("7:filter-under-{u1:?}"), un(u1, filt(a.clone(), "f")));
+        for neg in [false, true] {
+            add(format!("7:{u1:?}-under-test:{neg}"), test(un(u1, a.clone()), "t", neg));
+            add(format!("7:test-under-{u1:?}:{neg}"), un(u1, test(a.clone(), "t", neg)));
+        }
+        add(format!("7:notin-under-{u1:?}"), un(u1, Sx::NotIn(bx(a.clone()), bx(b.clone()))));
+    }
+    for neg in [false, true] {
+        add(format!("7:filter-under-test:{neg}"), test(filt(a.clone(), "f"), "t", neg));
+        add(format!("7:test-under-filter:{neg}"), filt(test(a.clone(), "t", neg), "f"));
+        add(format!("7:test-under-test:{neg}"), test(test(a.clone(), "t", neg), "t2", neg));
+    }
+    add("7:filter-under-filter".into(), filt(filt(a.clone(), "f"), "g"));
+
+    // (7) subscripts / slices on every kind of base
+    let bases: Vec<(&str, Sx)> = vec![
+        ("var", a.clone()),
+        ("attr", Sx::Attr(bx(a.clone()), "x".into(), false)),
+        ("str", Sx::Const(Const::Str("s".into()))),
+        ("int", cint(1)),
+        ("float", Sx::Const(Const::Float(1.5))),
+        ("bool", Sx::Const(Const::Bool(true))),
+        ("none", Sx::Const(Const::Null)),
+        ("call", Sx::Call("f".into(), vec![])),
+        ("paren", paren_sx(bin(Bop::Plus, a.clone(), b.clone()))),
+        ("array", Sx::Arr(vec![(false, a.clone()), (false, b.clone())])),
+        ("constarray", Sx::Arr(vec![(false, cint(1)), (false, cint(2))])),
+        ("map", Sx::Map(vec![(Some(MKey::Str("k".into())), a.clone())])),
+        ("comp", Sx::Comp(bx(a.clone()), None, "x".into(), bx(b.clone()), None)),
+        ("filter", filt(a.clone(), "f")),
+        ("test", test(a.clone(), "t", false)),
+        ("nottest", test(a.clone(), "t", true)),
+        ("minus", un(Unop::Minus, a.clone())),
+        ("not", un(Unop::Not, a.clone())),
+        ("plus", bin(Bop::Plus, a.clone(), b.clone())),
+        ("power", bin(Bop::Power, a.clone(), b.clone())),
+        ("notin", Sx::NotIn(bx(a.clone()), bx(b.clone()))),
+        ("tern", t.clone()),
+        ("item", item(a.clone(), b.clone())),
+        ("slice", Sx::Slice(bx(a.clone()), None, None, None, false)),
+    ];
+    for (n, base) in &bases {
+        add(format!("7:item-on-{n}"), item(base.clone(), c.clone()));
+        add(format!("7:slice-on-{n}"), Sx::Slice(bx(base.clone()), Some(bx(c.clone())), None, None, false));
+        add(format!("7:slice3-on-{n}"), Sx::Slice(bx(base.clone()), None, Some(bx(c.clone())), Some(bx(d.clone())), false));
+        add(format!("7:item-item-on-{n}"), item(item(base.clone(), c.clone()), d.clone()));
+        // each kind also as an index / a slice bound
+        add(format!("7:{n}-as-index"), item(d.clone(), base.clone()));
+        add(format!("7:{n}-as-bounds"), Sx::Slice(bx(d.clone()), Some(bx(base.clone())), Some(bx(base.clone())), Some(bx(base.clone())), false));
+    }
+    // all 8 subsets of slice bounds, plain and optional
+    for m in 0..8u8 {
+        for opt in [false, true] {
+            let pick = |bit: u8, v: &Sx| if m & bit != 0 { Some(bx(v.clone())) } else { None };
+            add(format!("7:slice-bounds:{m}:{opt}"), Sx::Slice(bx(a.clone()), pick(1, &b), pick(2, &c), pick(4, &d), opt));
+        }
+    }
+    out
+}
+
+// ------------------------------------------------------------------ (R) random trees
+
+const VARS: [&str; 22] = [
+    "a", "b", "c", "x", "y", "foo", "bar_1", "_z", "item", "user", "v0", "v1", "v2", "v3", "v4", "v5", "v6",
+    "v7", "v8", "v9", "loop_", "nottrue",
+];
+const ATTRS: [&str; 12] = ["a", "b", "name", "id", "x1", "_p", "items", "len", "first", "k", "value", "n0"];
+const KW_ATTRS: [&str; 9] = ["if", "in", "is", "not", "and", "or", "else", "for", "none"];
+const FILTERS: [&str; 12] =
+    ["upper", "lower", "length", "default", "abs", "int", "round", "safe", "my_filter", "f", "g2", "trim_x"];
+const TESTS: [&str; 11] =
+    ["defined", "undefined", "odd", "even", "string", "number", "divisible_by", "containing", "t", "my_test", "zz9"];
+const FUNCS: [&str; 6] = ["range", "throw", "f", "make", "now_x", "get_1"];
+const KWNAMES: [&str; 10] = ["k", "value", "n", "end", "start", "by", "default_", "x", "sep", "a1"];
+const STRS: [&str; 11] = ["", "a", "hello world", "x y", "é日", "<b>", "a'b", "10%", "k", "not", "{{ x }}"];
+const FLOATS: [f64; 7] = [1.5, 0.25, 2.0, 10.125, 0.0, 3.75, 100.5];
+const INTS: [i64; 6] = [100, 255, 1000000, 4294967296, 9007199254740993, i64::MAX];
+
+struct TreeGen<'r> {
+    rng: &'r mut Rng,
+    max_br: usize,
+    max_dim: usize,
+}
+
+impl<'r> TreeGen<'r> {
+    fn name(&mut self, pool: &[&str]) -> String {
+        self.rng.pick(pool).to_string()
+    }
+    fn konst(&mut self) -> Const {
+        match self.rng.below(12) {
+            0..=4 => Const::Int(self.rng.range(0, 20)),
+            5 => Const::Int(*self.rng.pick(&INTS)),
+            6..=7 => Const::Float(*self.rng.pick(&FLOATS)),
+            8..=9 => Const::Str(self.name(&STRS)),
+            10 => Const::Bool(self.rng.chance(1, 2)),
+            _ => Const::Null,
+        }
+    }
+    fn atom(&mut self) -> Sx {
+        match self.rng.below(20) {
+            0..=10 => Sx::Var(self.name(&VARS)),
+            11..=17 => Sx::Const(self.konst()),
+            18 => Sx::Call(self.name(&FUNCS), vec![]),
+            _ => {
+                if self.rng.chance(1, 2) {
+                    Sx::Arr(vec![])
+                } else {
+                    Sx::Map(vec![])
+                }
+            }
+        }
+    }
+    fn mkey(&mut self) -> MKey {
+        match self.rng.below(6) {
+            0..=2 => MKey::Str(self.name(&STRS)),
+            3..=4 => MKey::Int(self.rng.range(0, 12)),
+            _ => MKey::Bool(self.rng.chance(1, 2)),
+        }
+    }
+
+    /// splits `n` into `k` parts, each >= 1 when n >= k
+    fn split(&mut self, n: usize, k: usize) -> Vec<usize> {
+        let mut parts = vec![1usize; k];
+        let mut rest = n.saturating_sub(k);
+        while rest > 0 {
+            let i = self.rng.below(k);
+            let take = 1 + self.rng.below(rest);
+            parts[i] += take;
+            rest -= take;
+        }
+        parts
+    }
+
+    /// 0..=3 keyword arguments with distinct names out of a budget of `n` nodes
+    fn kwargs(&mut self, n: usize, br: usize, dim: usize) -> Kw {
+        let k = self.rng.below(4).min(n);
+        if k == 0 {
+            return vec![];
+        }
+        let parts = self.split(n, k);
+        let mut names: Vec<&str> = KWNAMES.to_vec();
+        let mut kw = Vec::new();
+        for p in parts {
+            let i = self.rng.below(names.len());
+            let name = names.remove(i).to_string();
+            kw.push((name, self.expr(p, br, dim)));
+        }
+        kw
+    }
+
+    /// an identifier chain (the only place where `.`, `?.`, `?[` are accepted)
+    fn chain(&mut self, n: usize, br: usize, dim: usize) -> Sx {
+        let mut e = Sx::Var(self.name(&VARS));
+        let mut left = n.saturating_sub(1);
+        while left > 0 {
+            let opt = self.rng.chance(1, 5);
+            match self.rng.below(10) {
+                0..=4 => {
+                    let a = if self.rng.chance(1, 25) { self.name(&KW_ATTRS) } else { self.name(&ATTRS) };
+                    e = Sx::Attr(bx(e), a, opt);
+                    left -= 1;
+                }
+                5..=7 if br < self.max_br => {
+                    let take = 1 + self.rng.below(left.min(6));
+                    let i = self.expr(take, br + 1, dim);
+                    e = Sx::Item(bx(e), bx(i), opt);
+                    left -= take;
+                }
+                _ if br < self.max_br => {
+                    let (s, used) = self.bounds(left.min(7), br + 1, dim);
+                    e = Sx::Slice(bx(e), s.0, s.1, s.2, opt);
+                    left -= used.max(1).min(left);
+                }
+                _ => {
+                    let a = self.name(&ATTRS);
+                    e = Sx::Attr(bx(e), a, opt);
+                    left -= 1;
+                }
+            }
+        }
+        e
+    }
+
+    /// any subset of slice bounds; returns the number of nodes used
+    #[allow(clippy::type_complexity)]
+    fn bounds(&mut self, n: usize, br: usize, dim: usize) -> ((Option<Box<Sx>>, Option<Box<Sx>>, Option<Box<Sx>>), usize) {
+        let mut used = 0;
+        let mut one = |me: &mut Self| -> Option<Box<Sx>> {
+            if used < n && me.rng.chance(1, 2) {
+                let take = 1 + me.rng.below((n - used).min(3));
+                used += take;
+                Some(bx(me.expr(take, br, dim)))
+            } else {
+                None
+            }
+        };
+        let a = one(self);
+        let b = one(self);
+        let c = one(self);
+        ((a, b, c), used)
+    }
+
+    fn expr(&mut self, n: usize, br: usize, dim: usize) -> Sx {
+        if n <= 1 {
+            return self.atom();
+        }
+        for _ in 0..30 {
+            let k = self.rng.below(100);
+            match k {
+                0..=29 if n >= 3 => {
+                    let p = self.split(n - 1, 2);
+                    let o = *self.rng.pick(&BOPS);
+                    let a = self.expr(p[0], br, dim);
+                    return bin(o, a, self.expr(p[1], br, dim));
+                }
+                30..=33 if n >= 3 => {
+                    let p = self.split(n - 1, 2);
+                    let a = self.expr(p[0], br, dim);
+                    return Sx::NotIn(bx(a), bx(self.expr(p[1], br, dim)));
+                }
+                34..=41 => {
+                    let u = if self.rng.chance(1, 2) { Unop::Not } else { Unop::Minus };
+                    return un(u, self.expr(n - 1, br, dim));
+                }
+                42..=49 => {
+                    let kwn = if self.rng.chance(1, 3) { self.rng.below(n.min(6)) } else { 0 };
+                    let e = self.expr((n - 1).saturating_sub(kwn).max(1), br, dim);
+                    let kw = self.kwargs(kwn, br, dim);
+                    return Sx::Test(bx(e), self.name(&TESTS), kw, self.rng.chance(1, 3));
+                }
+                50..=58 => {
+                    let kwn = if self.rng.chance(1, 3) { self.rng.below(n.min(6)) } else { 0 };
+                    let e = self.expr((n - 1).saturating_sub(kwn).max(1), br, dim);
+                    let kw = self.kwargs(kwn, br, dim);
+                    return Sx::Filter(bx(e), self.name(&FILTERS), kw);
+                }
+                59..=62 => {
+                    let kw = self.kwargs(n - 1, br, dim);
+                    return Sx::Call(self.name(&FUNCS), kw);
+                }
+                63..=68 if n >= 4 => {
+                    let p = self.split(n - 1, 3);
+                    let c = self.expr(p[0], br, dim);
+                    let t = self.expr(p[1], br, dim);
+                    return tern(c, t, self.expr(p[2], br, dim));
+                }
+                69..=80 => return self.chain(n, br, dim),
+                81..=84 if br < self.max_br && n >= 3 => {
+                    // subscript / slice on something that is not an identifier chain
+                    let p = self.split(n - 1, 2);
+                    let base = self.expr(p[0], br, dim);
+                    if self.rng.chance(2, 3) {
+                        return item(base, self.expr(p[1], br + 1, dim));
+                    }
+                    let (s, _) = self.bounds(p[1], br + 1, dim);
+                    return Sx::Slice(bx(base), s.0, s.1, s.2, false);
+                }
+                85..=89 if dim < self.max_dim => {
+                    let k = 1 + self.rng.below((n - 1).min(4));
+                    let parts = self.split(n - 1, k);
+                    let all_const = self.rng.chance(1, 4);
+                    let mut items = Vec::new();
+                    for p in parts {
+                        let v = if all_const { Sx::Const(self.konst()) } else { self.expr(p, br, dim + 1) };
+                        items.push((!all_const && self.rng.chance(1, 5), v));
+                    }
+                    return Sx::Arr(items);
+                }
+                90..=93 => {
+                    let k = 1 + self.rng.below((n - 1).min(4));
+                    let parts = self.split(n - 1, k);
+                    let all_const = self.rng.chance(1, 4);
+                    let mut es = Vec::new();
+                    for p in parts {
+                        let v = if all_const { Sx::Const(self.konst()) } else { self.expr(p, br, dim) };
+                        let key = if !all_const && self.rng.chance(1, 5) { None } else { Some(self.mkey()) };
+                        es.push((key, v));
+                    }
+                    return Sx::Map(es);
+                }
+                94..=96 if dim < self.max_dim && n >= 3 => {
+                    let with_cond = n >= 4 && self.rng.chance(1, 2);
+                    let p = self.split(n - 1, if with_cond { 3 } else { 2 });
+                    let e = self.expr(p[0], br, dim + 1);
+                    let t = self.expr(p[1], br, dim);
+                    let c = if with_cond { Some(bx(self.expr(p[2], br, dim))) } else { None };
+                    let k = if self.rng.chance(1, 3) { Some(self.name(&VARS)) } else { None };
+                    return Sx::Comp(bx(e), k, self.name(&VARS), bx(t), c);
+                }
+                97..=99 => return paren_sx(self.expr(n - 1, br, dim)),
+                _ => {}
+            }
+        }
+        self.atom()
+    }
+}
+
+fn random_tree(rng: &mut Rng) -> Sx {
+    // sizes 1..~25, small ones more often
+    let n = match rng.below(10) {
+        0 => 1 + rng.below(2),
+        1..=4 => 2 + rng.below(6),
+        5..=7 => 5 + rng.below(9),
+        _ => 10 + rng.below(16),
+    };
+    let max_br = if rng.chance(1, 40) { 5 } else { 4 };
+    let max_dim = if rng.chance(1, 40) { 3 } else { 2 };
+    let mut g = TreeGen { rng, max_br, max_dim };
+    g.expr(n, 0, 0)
+}
+
+// ------------------------------------------------------------------ (L) limit cases
+
+fn limit_shapes() -> Vec<(String, Sx)> {
+    let (a, b, c) = (var("a"), var("b"), var("c"));
+    let mut out: Vec<(String, Sx)> = Vec::new();
+    let mut add = |tag: String, s: Sx| out.push((format!("L:{tag}"), s));
+    let nest = |n: usize, base: Sx, f: &dyn Fn(Sx) -> Sx| {
+        let mut e = base;
+        for _ in 0..n {
+            e = f(e);
+        }
+        e
+    };
+    for n in 36..=42 {
+        add(format!("parens:{n}"), nest(n, a.clone(), &|e| paren_sx(e)));
+        add(format!("power-right:{n}"), nest(n, a.clone(), &|e| bin(Bop::Power, a.clone(), e)));
+        add(format!("tern-else:{n}"), nest(n, a.clone(), &|e| tern(b.clone(), a.clone(), e)));
+        add(format!("tern-cond:{n}"), nest(n, a.clone(), &|e| tern(e, a.clone(), b.clone())));
+        add(format!("kwarg:{n}"), nest(n, a.clone(), &|e| Sx::Call("f".into(), vec![("k".into(), e)])));
+    }
+    for n in 17..=22 {
+        add(format!("minus-chain:{n}"), nest(n, a.clone(), &|e| un(Unop::Minus, e)));
+        add(format!("not-minus-chain:{n}"), nest(n, a.clone(), &|e| un(Unop::Not, un(Unop::Minus, e))));
+        add(format!("plus-right:{n}"), nest(n, a.clone(), &|e| bin(Bop::Plus, a.clone(), e)));
+        add(format!("map-nest:{n}"), nest(n, a.clone(), &|e| Sx::Map(vec![(Some(MKey::Int(1)), e)])));
+    }
+    // `not` in front of a lower-level operand needs no parentheses and one level per `not`... the
+    // real parser forbids `not not`, so the printer parenthesises: two levels per `not`
+    for n in [18, 19, 20, 21] {
+        add(format!("not-chain:{n}"), nest(n, a.clone(), &|e| un(Unop::Not, e)));
+    }
+    // loops do not consume recursion levels
+    add("plus-left:60".into(), nest(60, a.clone(), &|e| bin(Bop::Plus, e, a.clone())));
+    add("filter-chain:60".into(), nest(60, a.clone(), &|e| filt(e, "f")));
+    add("test-chain:45".into(), nest(45, a.clone(), &|e| test(e, "t", false)));
+    add("attr-chain:60".into(), nest(60, a.clone(), &|e| Sx::Attr(bx(e), "x".into(), false)));
+    add("item-chain:60".into(), nest(60, a.clone(), &|e| item(e, cint(0))));
+    for n in 1..=6 {
+        add(format!("brackets:{n}"), nest(n, a.clone(), &|e| item(b.clone(), e)));
+        add(format!("opt-brackets:{n}"), nest(n, a.clone(), &|e| Sx::Item(bx(b.clone()), bx(e), true)));
+        add(format!("slice-brackets:{n}"), nest(n, a.clone(), &|e| Sx::Slice(bx(b.clone()), None, Some(bx(e)), None, false)));
+        add(format!("paren-brackets:{n}"), nest(n, a.clone(), &|e| item(paren_sx(b.clone()), paren_sx(e))));
+        add(format!("brackets-through-call:{n}"), nest(n, a.clone(), &|e| item(b.clone(), Sx::Call("f".into(), vec![("k".into(), e)]))));
+    }
+    for n in 1..=4 {
+        add(format!("array-dim:{n}"), nest(n, a.clone(), &|e| Sx::Arr(vec![(false, e)])));
+        add(format!("const-array-dim:{n}"), nest(n, cint(1), &|e| Sx::Arr(vec![(false, e)])));
+        add(format!("array-dim-through-call:{n}"), nest(n, a.clone(), &|e| Sx::Arr(vec![(false, Sx::Call("f".into(), vec![("k".into(), e)]))])));
+        add(format!("comp-dim-expr:{n}"), nest(n, a.clone(), &|e| Sx::Comp(bx(e), None, "x".into(), bx(b.clone()), None)));
+        add(format!("comp-dim-target:{n}"), nest(n, a.clone(), &|e| Sx::Comp(bx(b.clone()), None, "x".into(), bx(e), None)));
+        add(format!("array-in-index:{n}"), nest(n, a.clone(), &|e| item(b.clone(), Sx::Arr(vec![(false, e)]))));
+    }
+    // `~` and unary right operands
+    add("concat-minus".into(), bin(Bop::Concat, a.clone(), un(Unop::Minus, b.clone())));
+    add("concat-not".into(), bin(Bop::Concat, a.clone(), un(Unop::Not, b.clone())));
+    add("concat-notin".into(), bin(Bop::Concat, a.clone(), Sx::NotIn(bx(b.clone()), bx(c.clone()))));
+    add("concat-isnot".into(), bin(Bop::Concat, a.clone(), test(b.clone(), "t", true)));
+    add("concat-is".into(), bin(Bop::Concat, a.clone(), test(b.clone(), "t", false)));
+    add("concat-paren-minus".into(), bin(Bop::Concat, a.clone(), paren_sx(paren_sx(un(Unop::Minus, b.clone())))));
+    add("concat-minus-left".into(), bin(Bop::Concat, un(Unop::Minus, a.clone()), b.clone()));
+    add("concat-minus-item".into(), bin(Bop::Concat, a.clone(), item(paren_sx(un(Unop::Minus, b.clone())), c.clone())));
+    add("concat-minus-filter".into(), bin(Bop::Concat, a.clone(), filt(un(Unop::Minus, b.clone()), "f")));
+    // constants
+    for i in INTS {
+        add(format!("int:{i}"), cint(i));
+        add(format!("neg-int:{i}"), un(Unop::Minus, cint(i)));
+    }
+    for f in FLOATS {
+        add(format!("float:{f}"), Sx::Const(Const::Float(f)));
+        add(format!("float-in-array:{f}"), Sx::Arr(vec![(false, Sx::Const(Const::Float(f))), (false, cint(1))]));
+        add(format!("float-in-map:{f}"), Sx::Map(vec![(Some(MKey::Str("k".into())), Sx::Const(Const::Float(f)))]));
+    }
+    for s in STRS {
+        add(format!("str:{s}"), Sx::Const(Const::Str(s.to_string())));
+        add(format!("str-in-array:{s}"), Sx::Arr(vec![(false, Sx::Const(Const::Str(s.to_string())))]));
+        add(format!("str-in-map:{s}"), Sx::Map(vec![(Some(MKey::Str(s.to_string())), Sx::Const(Const::Str(s.to_string())))]));
+        add(format!("str-in-nested:{s}"), Sx::Arr(vec![(false, Sx::Arr(vec![(false, Sx::Const(Const::Str(s.to_string())))]))]));
+    }
+    // duplicate / mixed map keys (a folded map is a HashMap printed sorted)
+    add(
+        "map-dup-keys".into(),
+        Sx::Map(vec![
+            (Some(MKey::Str("b".into())), cint(1)),
+            (Some(MKey::Int(2)), cint(2)),
+            (Some(MKey::Bool(true)), cint(3)),
+            (Some(MKey::Str("a".into())), cint(4)),
+            (Some(MKey::Str("b".into())), cint(5)),
+            (Some(MKey::Int(10)), Sx::Const(Const::Null)),
+            (Some(MKey::Bool(false)), Sx::Const(Const::Bool(false))),
+        ]),
+    );
+    add(
+        "map-dup-keys-nonconst".into(),
+        Sx::Map(vec![
+            (Some(MKey::Str("b".into())), a.clone()),
+            (Some(MKey::Str("b".into())), cint(5)),
+            (None, b.clone()),
+            (Some(MKey::Int(1)), Sx::Map(vec![(Some(MKey::Int(1)), cint(1))])),
+        ]),
+    );
+    out
+}
+
+// ------------------------------------------------------------------ praw: mutations + hand-written
+
+fn mutation_pool() -> Vec<Tok> {
+    let mut v = vec![
+        Tok::Mul,
+        Tok::Div,
+        Tok::FloorDiv,
+        Tok::Mod,
+        Tok::Plus,
+        Tok::Minus,
+        Tok::Power,
+        Tok::Gt,
+        Tok::Le,
+        Tok::Ge,
+        Tok::Eq,
+        Tok::Ne,
+        Tok::Tilde,
+        Tok::Pipe,
+        Tok::Assign,
+        Tok::Dot,
+        Tok::QDot,
+        Tok::QLBracket,
+        Tok::Comma,
+        Tok::Colon,
+        Tok::Bang,
+        Tok::LBracket,
+        Tok::RBracket,
+        Tok::LParen,
+        Tok::RParen,
+        Tok::LBrace,
+        Tok::RBrace,
+        Tok::Spread,
+        Tok::Int(1),
+        Tok::Float(2.5),
+        Tok::Str("s".into()),
+        Tok::Bool(true),
+    ];
+    for k in ["not", "in", "and", "or", "is", "if", "else", "none", "for", "a", "f", "not", "in", "is"] {
+        v.push(Tok::id(k));
+    }
+    v
+}
+
+fn mutate(ts: &mut Vec<Tok>, pool: &[Tok], rng: &mut Rng) -> &'static str {
+    if ts.is_empty() {
+        ts.push(rng.pick(pool).clone());
+        return "insert";
+    }
+    let i = rng.below(ts.len());
+    let is_op = |t: &Tok| {
+        matches!(
+            t,
+            Tok::Mul | Tok::Div | Tok::FloorDiv | Tok::Mod | Tok::Plus | Tok::Minus | Tok::Power | Tok::Gt | Tok::Le
+                | Tok::Ge | Tok::Eq | Tok::Ne | Tok::Tilde | Tok::Lt
+        ) || matches!(t, Tok::Ident(s) if s == "and" || s == "or" || s == "in")
+    };
+    match rng.below(8) {
+        5 | 6 => {
+            // an infix operator becomes another one (mostly still well-formed: regrouping)
+            let ops: Vec<usize> = (0..ts.len()).filter(|k| is_op(&ts[*k])).collect();
+            if ops.is_empty() {
+                ts[i] = rng.pick(pool).clone();
+                return "replace";
+            }
+            let k = *rng.pick(&ops);
+            ts[k] = match rng.below(4) {
+                0 => Tok::id(*rng.pick(&["and", "or", "in"])),
+                _ => rng.pick(&BOPS[..13]).tok(),
+            };
+            if ts[k] == Tok::Lt {
+                ts[k] = Tok::Le;
+            }
+            "op-for-op"
+        }
+        7 => {
+            // an atom becomes a keyword-ish or another atom
+            let atoms: Vec<usize> = (0..ts.len())
+                .filter(|k| matches!(&ts[*k], Tok::Int(_) | Tok::Float(_) | Tok::Str(_) | Tok::Bool(_)) || matches!(&ts[*k], Tok::Ident(s) if VARS.contains(&s.as_str())))
+                .collect();
+            if atoms.is_empty() {
+                ts.remove(i);
+                return "delete";
+            }
+            let k = *rng.pick(&atoms);
+            ts[k] = match rng.below(6) {
+                0 => Tok::id("none"),
+                1 => Tok::id("not"),
+                2 => Tok::Int(7),
+                3 => Tok::Str("q".into()),
+                4 => Tok::Minus,
+                _ => Tok::id("zz"),
+            };
+            "atom-for-atom"
+        }
+        0 => {
+            ts.remove(i);
+            "delete"
+        }
+        1 => {
+            let t = ts[i].clone();
+            ts.insert(i, t);
+            "duplicate"
+        }
+        2 => {
+            if i + 1 < ts.len() {
+                ts.swap(i, i + 1);
+            } else if i > 0 {
+                ts.swap(i - 1, i);
+            }
+            "swap"
+        }
+        3 => {
+            ts[i] = rng.pick(pool).clone();
+            "replace"
+        }
+        _ => {
+            ts.insert(i, rng.pick(pool).clone());
+            "insert"
+        }
+    }
+}
+
+const HANDWRITTEN: &[&str] = &[
+    "a not b",
+    "a is not",
+    "a not in",
+    "a if b",
+    "a if b else",
+    "a[",
+    "a[]",
+    "a[:]",
+    "a[::]",
+    "a[1:2:]",
+    "a[1:2:3]",
+    "a[::3]",
+    "a[:2:]",
+    "a[1::]",
+    "a[1:2:3:4]",
+    "a.",
+    "a.1",
+    "a?.",
+    "a?.b?.c",
+    "a?[0]?.b",
+    "(a).b",
+    "(a)?[0]",
+    "(a)[0]",
+    "\"s\"?[0]",
+    "\"s\"[0]",
+    "\"s\".x",
+    "a.b(c=1)",
+    "a(b=1).c",
+    "a(b=1)[0]",
+    "f(a=1, a=2)",
+    "f(a=1,)",
+    "f(,)",
+    "f(a)",
+    "f(a=)",
+    "f(1=a)",
+    "a | f(",
+    "a | f()",
+    "a | f(x=1,)",
+    "a | f.g",
+    "a | f[0]",
+    "a is t(x=1)(y=2)",
+    "a is t[0]",
+    "a is t.u",
+    "a is not not t",
+    "- - a",
+    "not not a",
+    "- not a",
+    "not - a",
+    "-(-a)",
+    "a ~ -b",
+    "a ~ (-b)",
+    "a ~ not b",
+    "a ~ b ~ -c",
+    "a - -b",
+    "a + not b",
+    "a and",
+    "or a",
+    "a ** ** b",
+    "[a for x in xs for y in ys]",
+    "[a for not in xs]",
+    "[a for x, in xs]",
+    "[a for x, y, z in xs]",
+    "[a for x in xs if]",
+    "[a for x in b if c else d]",
+    "[a for x in b if c if d]",
+    "[a, b for x in xs]",
+    "[...a for x in xs]",
+    "[a for loop in xs]",
+    "[...a, b]",
+    "[a,]",
+    "[,]",
+    "[a,,b]",
+    "{\"a\": 1, ...m, 2: x, true: y}",
+    "{a: 1}",
+    "{1.5: 1}",
+    "{\"a\": 1,}",
+    "{,}",
+    "{\"a\" 1}",
+    "[[[1]]]",
+    "if",
+    "a if",
+    "in",
+    "not",
+    "none.x",
+    "1[0]",
+    "1.5.x",
+];
+
+const HANDWRITTEN2: &[&str] = &[
+    "true[0]",
+    "a.if",
+    "a.not.in",
+    "a not in b in c",
+    "a in b not in c",
+    "a is not defined is defined",
+    "a if b if c else d else e",
+    "a if b else c if d else e",
+    "a else b",
+    "a for b",
+    "a.true",
+    "a!b",
+    "a = b",
+    "a, b",
+    "a : b",
+    "()",
+    "(a",
+    "a)",
+    "",
+    "a b",
+    "1 2",
+    "null is none",
+];
+
+// ------------------------------------------------------------------ main
+
+fn replay(path: &std::path::Path) {
+    let txt = std::fs::read_to_string(path).expect("read replay file");
+    let first = txt.lines().next().unwrap_or("");
+    let j: serde_json::Value = serde_json::from_str(&txt)
+        .or_else(|_| serde_json::from_str(first))
+        .expect("replay file is not JSON");
+    let case = j.get("case").unwrap_or(&j);
+    let text = case
+        .get("text")
+        .and_then(|t| t.as_str())
+        .or_else(|| case.get("texts").and_then(|t| t.get(0)).and_then(|t| t.as_str()))
+        .expect("no `text` in the case");
+    println!("family: {}", j.get("family").and_then(|f| f.as_str()).unwrap_or("?"));
+    println!("text: {text}");
+    match lex_text(text) {
+        Lexed::Toks(t) => println!("tokens: {}", gal_toks(&t)),
+        Lexed::Reject(m) => println!("lexer rejects: {m}"),
+        Lexed::Odd(m) => println!("lexer: {m}"),
+        Lexed::Panic(m) => println!("lexer PANIC: {m}"),
+    }
+    match parse_text(text) {
+        Parsed::Accept(d) => println!("impl: Some {d}"),
+        Parsed::Reject(m) => println!("impl: None (syntax error: {})", m.lines().next().unwrap_or("")),
+        Parsed::Odd(m) => println!("impl: unexpected: {m}"),
+        Parsed::Panic(m) => println!("impl: PANIC {m}"),
+    }
+}
+
+fn main() {
+    let args = parse_args();
+    silence_panics();
+    if let Some(p) = &args.replay {
+        replay(p);
+        return;
+    }
+    let thorough = args.tier == "thorough";
+    let mut rng = Rng::new(args.seed);
+    let hdr = "From TeraV Require Import Model.Value Model.Pratt Corr.CorrC02.\nOpen Scope nat_scope.";
+    let n_random = if thorough { 20_000 } else { 1_200 };
+    let n_mut = if thorough { 15_000 } else { 800 };
+    let mut run = Run {
+        ptree: Sink::new(&args.out, "ptree", hdr, "check_ptree"),
+        praw: Sink::new(&args.out, "praw", hdr, "check_praw"),
+        meta: Meta::default(),
+        seeds: Vec::new(),
+        seed_cap: n_mut.min(4_000),
+    };
+
+    // (E) exhaustive shapes, both tiers: minimal and fully parenthesised
+    let shapes = exhaustive_shapes();
+    let n_shapes = shapes.len();
+    for (i, (tag, s)) in shapes.iter().enumerate() {
+        // the layout cycles so that every shape is seen with the same layouts on every seed
+        run.emit_decorated(s, tag, false, Some((i % 3) as u8), &mut rng);
+    }
+    let exhaustive_cases = run.ptree.count;
+    // the mutation seeds should mostly be random trees
+    run.seeds.truncate(300);
+
+    // (L) limits
+    let limits = limit_shapes();
+    let n_limits = limits.len();
+    for (tag, s) in &limits {
+        run.emit_decorated(s, tag, false, None, &mut rng);
+    }
+    run.seeds.truncate(350);
+
+    // (R) random trees in three decorations
+    for _ in 0..n_random {
+        let s = random_tree(&mut rng);
+        run.emit_decorated(&s, "R:random", true, None, &mut rng);
+    }
+
+    // praw: hand-written first, then mutations of printed trees
+    for t in HANDWRITTEN.iter().chain(HANDWRITTEN2.iter()) {
+        run.emit_raw_text(&format!("{{{{ {t} }}}}"), "hand:written");
+        run.emit_raw_text(&format!("{{{{ x + ({t}) }}}}"), "hand:nested");
+    }
+    let pool = mutation_pool();
+    let seeds = std::mem::take(&mut run.seeds);
+    for _ in 0..n_mut {
+        let mut ts = rng.pick(&seeds).clone();
+        let k = 1 + rng.below(2);
+        let mut what = Vec::new();
+        for _ in 0..k {
+            what.push(mutate(&mut ts, &pool, &mut rng));
+        }
+        // single spaces between all tokens; the token stream sent to Coq is the lexer's
+        let text = render(&ts, 0, &mut rng);
+        run.emit_raw_text(&text, &format!("mut:{}", what.join("+")));
+    }
+
+    let Run { ptree, praw, mut meta, .. } = run;
+    meta.extra.insert("exhaustive_shapes".into(), json!(true));
+    meta.extra.insert("exhaustive_shape_count".into(), json!(n_shapes));
+    meta.extra.insert("exhaustive_cases".into(), json!(exhaustive_cases));
+    meta.extra.insert(
+        "exhaustive_space".into(),
+        json!("all pairs of the 17 infix operators + `not in` in both groupings; each of them against not/-, a filter, is / is not, the ternary (5 positions); ternary / unary / filter / test against each other; subscripts and slices on 24 kinds of base; each in the minimal and the fully parenthesised decoration"),
+    );
+    meta.extra.insert("limit_shapes".into(), json!(n_limits));
+    meta.extra.insert("random_trees".into(), json!(n_random));
+    meta.extra.insert("mutations".into(), json!(n_mut));
+    meta.families.push(ptree.finish());
+    meta.families.push(praw.finish());
+    meta.write(&args.out);
+}
